@@ -957,6 +957,41 @@ pub struct CompN {
     pub neg: i64,
 }
 
+/// A component with `#[reflect(Default)]` whose default holds NON-EMPTY collections: a decoder that
+/// rebuilds values by patching a default (Reflect::apply never removes list elements) is exposed.
+#[derive(Component, Reflect, Clone, PartialEq, Debug)]
+#[reflect(Component, Default)]
+pub struct CompD {
+    pub route: Vec<i32>,
+    pub labels: Vec<String>,
+    pub note: Option<Vec<u8>>,
+    pub speed: f32,
+}
+
+impl Default for CompD {
+    fn default() -> Self {
+        CompD { route: vec![7, 8, 9], labels: vec!["start".to_string(), "end".to_string()], note: Some(vec![1, 2, 3]), speed: 1.5 }
+    }
+}
+
+fn gen_comp_d(rng: &mut Rng) -> CompD {
+    let rl = *rng.pick(&[0u64, 0, 1, 2, 3, 5]);
+    let ll = *rng.pick(&[0u64, 1, 2, 4]);
+    CompD {
+        route: (0..rl).map(|_| int_bits(rng, 32) as i32).collect(),
+        labels: (0..ll).map(|_| gen_string(rng, 40)).collect(),
+        note: match rng.below(3) {
+            0 => None,
+            1 => Some(vec![]),
+            _ => {
+                let n = rng.below(6) as usize;
+                Some(payload(rng, n))
+            }
+        },
+        speed: gen_f32(rng),
+    }
+}
+
 fn reg_family<T>(r: &mut TypeRegistry)
 where
     T: Reflect + FromReflect + bevy::reflect::GetTypeRegistration + bevy::reflect::TypePath,
@@ -975,6 +1010,7 @@ pub fn family_registry() -> TypeRegistry {
     reg_family::<CompE>(&mut r);
     reg_family::<Inner>(&mut r);
     reg_family::<CompN>(&mut r);
+    reg_family::<CompD>(&mut r);
     reg_family::<Transform>(&mut r);
     r.register::<Vec3>();
     r.register::<Quat>();
@@ -1358,7 +1394,7 @@ fn gen_comp_n(rng: &mut Rng) -> CompN {
     CompN {
         opt: if rng.chance(1, 3) { None } else { Some(int_bits(rng, 32) as u32) },
         v: (0..vlen).map(|_| int_bits(rng, 64) as i64).collect(),
-        s: gen_string(rng, 700),
+        s: if rng.chance(1, 12) { let n = rng.range(66_000, 72_000) as usize; ascii_string(rng, n) } else { gen_string(rng, 700) },
         nested: gen_inner(rng),
         arr: [int_bits(rng, 16) as u16, int_bits(rng, 16) as u16, int_bits(rng, 16) as u16],
         t: (int_bits(rng, 8) as u8, gen_f64(rng)),
@@ -1610,7 +1646,7 @@ fn eq_debug<T: std::fmt::Debug>(a: &T, b: &T) -> bool {
     format!("{:?}", a) == format!("{:?}", b)
 }
 
-pub const FAMILY_KINDS: u64 = 12;
+pub const FAMILY_KINDS: u64 = 13;
 
 pub fn reflect_cases(seed: u64, count: usize) -> String {
     let mut rng = Rng::new(seed);
@@ -1638,6 +1674,7 @@ pub fn reflect_cases(seed: u64, count: usize) -> String {
             8 => emit_case(&mut out, i, &gen_handle::<Mesh>(r), &reg, eq_partial),
             9 => emit_case(&mut out, i, &gen_handle::<StandardMaterial>(r), &reg, eq_partial),
             10 => emit_case(&mut out, i, &gen_point_light(r), &reg, eq_debug),
+            11 => emit_case(&mut out, i, &gen_comp_d(r), &reg, eq_partial),
             _ => emit_case(&mut out, i, &gen_material(r), &reg, eq_debug),
         }
     }
